@@ -160,17 +160,11 @@ pub fn run_core(doc: &DocM, ops: &[Op], walk: &[u16], mode: Mode) -> Run {
         let r = guarded(|| it.apply(&mut st, op));
         match r {
             Ok((Ok(()), t)) => touches.push(t),
-            Ok((Err(e), _)) => {
-                if std::env::var_os("C08_ENDED").is_some() {
-                    println!("ENDED {} Err {}", op.kind(), e);
-                }
+            Ok((Err(_), _)) => {
                 let _ = guarded(|| it.close_all());
                 return Run::Ended { index: i, kind: op.kind(), panic: false };
             }
-            Err((sig, _)) => {
-                if std::env::var_os("C08_ENDED").is_some() {
-                    println!("ENDED {} {}", op.kind(), sig);
-                }
+            Err(_) => {
                 // the state may be inconsistent (poisoned lock): dispose of it under a guard
                 let _ = guarded(move || {
                     it.close_all();
@@ -218,6 +212,10 @@ pub fn run_core(doc: &DocM, ops: &[Op], walk: &[u16], mode: Mode) -> Run {
     let res = (|| {
         let mut mv = Mover { st: &mut st, depth: g, depth_after: &depth_after };
         mv.round(len0, &s0, &s1, "first round")?;
+        if mode == Mode::Stepwise {
+            // once more, so that a step that only works the first time is found here and not in the second phase
+            mv.round(len0, &s0, &s1, "second round")?;
+        }
         if mode == Mode::Stairs || mode == Mode::LastStep {
             let at = |t: usize| -> Option<(usize, &Snapshot)> {
                 if t == 0 {
